@@ -19,7 +19,7 @@ def one(sid):
     try:
         shutil.copytree("/repo/evo", os.path.join(d, "evo"), ignore=shutil.ignore_patterns("__pycache__"))
         shutil.copytree("/repo/contrib", os.path.join(d, "contrib"))
-        pr = subprocess.run(["patch", "-p1", "-s", "-i", os.path.join(V, "seeded", sid, "patch.diff")], cwd=d, capture_output=True, text=True)
+        pr = subprocess.run(["git", "apply", "--include=evo/*", "--include=contrib/*", os.path.join(V, "seeded", sid, "patch.diff")], cwd=d, capture_output=True, text=True)
         if pr.returncode != 0:
             return sid, "PATCH-FAILED " + pr.stdout[:200]
         out = {}
